@@ -116,7 +116,10 @@ impl<W, R, T> Runtime<W, R, T> {
         if let Some(size_limit) = self.limits.size_limit {
             if let Some(size) = f() {
                 let stat = self.stats.borrow();
-                if usize::from(stat.size) + size > size_limit {
+                if usize::from(stat.size)
+                    .checked_add(size)
+                    .map_or(true, |total| total > size_limit)
+                {
                     return Err(RuntimeViolation::AllocationLimitReached);
                 }
             }
